@@ -441,7 +441,7 @@ def run_check(chk, own):
             design_must_hold(chk, "c15-2keys", procs=3, keys=2, max_polls=2, max_req=3, max_kills=1, max_fails=1, timeout=5400)
         # fault enumeration by TLC: the shortest behaviour reaching each crash point / failure kind
         targets = [(f"kill@{x}", f'NeverKilledAt("{x}")') for x in CRASH_POINTS] + \
-                  [(f"fail:{f}", f'NeverFails("{f}")') for f in ("codegen", "cc", "link", "marker")]
+                  [(f"fail:{f}", f'NeverFails("{f}")') for f in ("codegen", "cc", "link", "marker", "echo")]
         later1 = [["req", "k1", "none"], ["drain"]]
         tails = [later1 + later1]
         if not quick:
@@ -451,7 +451,7 @@ def run_check(chk, own):
         tj, unreachable, gen = target_schedules(targets, tails=tails)
         if unreachable:
             raise MachineryError(f"fault targets unreachable in JitCache.tla: {unreachable}")
-        chk.add(transitions=gen, crash_points=len(CRASH_POINTS), fault_kinds=4, later_request_tails=len(tails))
+        chk.add(transitions=gen, crash_points=len(CRASH_POINTS), fault_kinds=5, later_request_tails=len(tails))
         if not quick:
             tj3, unr3, gen3 = target_schedules([("markerclash", "NeverMarkerClash")])
             chk.note(f"WriteMarker never finds an existing marker (design): unreachable={unr3}")
